@@ -103,23 +103,36 @@ def o_find(tseq: str, qseq: str, ntp: int, nqp: int, ignore_mods: bool, tp0: int
     return True
 
 
-def o_coverage(tseq: str, q1: str, q2: str, accumulate: bool, ignore_mods: bool, ntp: int, tp0: int = 0, excl=()) -> bool:
+def o_coverage(tseq: str, q1: str, q2: str, accumulate: bool, ignore_mods: bool, ntp: int, tp0: int = 0, qform: str = "plain", excl=()) -> bool:
+    """qform: how the first listed subsequence is handed over - 'plain' residues, 'modstr' a ProForma *string* carrying the
+    modification 'm0' on its first residue (the same value as the target's first modification), 'modann' the same as an
+    annotation object.  An occurrence counts when the residues match and (unless ignore_mods) the modifications on the stretch
+    equal the query's; it covers exactly len(residues) positions, however long the query's text is."""
     tseq, q1, q2 = _real(tseq), _real(q1), _real(q2)
     tpos = [tp0][:ntp]
     t = _ann(tseq, tpos)
-    subs = [q for q in (q1, q2) if q != ""]
-    got = SF.coverage(t, list(subs), accumulate=accumulate, ignore_mods=ignore_mods)
+    subs = []          # (what is passed, residues, modification map)
+    if q1 != "":
+        if qform == "plain":
+            subs.append((q1, q1, _modmap(q1, [])))
+        else:
+            qa = _ann(q1, [0])
+            subs.append((qa.serialize() if qform == "modstr" else qa, q1, _modmap(q1, [0])))
+    if q2 != "":
+        subs.append((q2, q2, _modmap(q2, [])))
+    got = SF.coverage(t, [x[0] for x in subs], accumulate=accumulate, ignore_mods=ignore_mods)
     tm = _modmap(tseq, tpos)
     want = [0] * len(tseq)
-    for q in subs:
+    for _, q, qm in subs:
         for k in range(0, len(tseq) - len(q) + 1):
-            if tseq[k:k + len(q)] == q and (ignore_mods or all(not m for m in tm[k:k + len(q)])):
+            if tseq[k:k + len(q)] == q and (ignore_mods or tm[k:k + len(q)] == qm):
                 for i in range(k, k + len(q)):
                     want[i] = want[i] + 1 if accumulate else 1
     if list(got) != want:
-        return _fail(why="coverage", target=t.serialize(), subs=subs, accumulate=accumulate, ignore_mods=ignore_mods, got=list(got), want=want)
-    pc = SF.percent_coverage(t, list(subs), ignore_mods=ignore_mods)
-    marked = sum(1 for x in ([1 if w else 0 for w in want])) if False else sum(1 for w in want if w)
+        return _fail(why="coverage", target=t.serialize(), subs=[x[0] if isinstance(x[0], str) else x[0].serialize() for x in subs], qform=qform,
+                     accumulate=accumulate, ignore_mods=ignore_mods, got=list(got), want=want)
+    pc = SF.percent_coverage(t, [x[0] for x in subs], ignore_mods=ignore_mods)
+    marked = sum(1 for w in want if w)
     if len(tseq) == 0:
         return pc == 0
     if not (0 <= pc <= 1) or abs(pc * len(tseq) - marked) > 1e-9:
